@@ -81,7 +81,7 @@ def loop_family() -> list[dict]:
 def join_family() -> list[dict]:
     S, T, P = PR.S, PR.T, PR.P
     fam = [PR.by_name(n) for n in ("diamond", "firstof", "quorum", "multimerge", "failbranch", "quorumfail",
-                                   "firstoffail", "termchain", "disabled", "fanout")]
+                                   "firstoffail", "termchain", "disabled", "fanout", "expired", "wfexpired")]
     fam.append(P("firstofslow", [S("a"), S("b", ["a"], tasks=[T("b.1", "poll", 1)]), S("c", ["a"]),
                                  S("d", ["b", "c"], join="DISCRIMINATOR")]))
     fam.append(P("quorumall", [S("a"), S("b", ["a"]), S("c", ["a"]), S("d", ["b", "c"], join="N_OF_M", thr=2)]))
